@@ -189,6 +189,15 @@ Qed.
 Lemma cext_ext s s' : cext s s' -> ext (hp s) (st s) (hp s') (st s').
 Proof. intros [H S _ _ _]. split; assumption. Qed.
 
+(* compilation does not touch the registers, the stack or the output *)
+Definition same_regs (s s' : vm) : Prop :=
+  sp s' = sp s /\ bp s' = bp s /\ ep s' = ep s /\ scap s' = scap s /\ stack s' = stack s /\
+  out_log s' = out_log s.
+Lemma same_regs_refl s : same_regs s s.
+Proof. repeat split. Qed.
+Lemma same_regs_trans a b c : same_regs a b -> same_regs b c -> same_regs a c.
+Proof. unfold same_regs. intuition congruence. Qed.
+
 (* ============================================================ values *)
 (* the value domain of the reference semantics: data, and builtin procedures (a datum
    cannot tell which procedure it stands for) *)
@@ -772,7 +781,7 @@ Definition top_hdr (l : lambda) : Prop := l_envmap l = [] /\ l_args l = [].
 Definition compile_ok (e : expr) : Prop :=
   forall f l tail s, (cell_size (cell_of e) < f)%nat -> top_hdr l -> minv s ->
   exists l' s' code, compile_expression f l tail (cell_of e) s = ROk l' s' /\
-    fwd l' = fwd l ++ code /\ same_hdr l l' /\ minv s' /\ cext s s' /\
+    fwd l' = fwd l ++ code /\ same_hdr l l' /\ minv s' /\ cext s s' /\ same_regs s s' /\
     forall rho r rho', ref_eval rho e r rho' -> exec_ok s' (len (fwd l)) code rho r rho'.
 
 Lemma top_hdr_same l l' : same_hdr l l' -> top_hdr l -> top_hdr l'.
@@ -814,11 +823,11 @@ Proof. intros [H G S] HI. constructor; [exact HI|exact G|exact S]. Qed.
 
 (* Heap::maybe_put_cell at compile time (quoted data, constants) *)
 Lemma maybe_put_cell_m_ok d s : heap_datum d -> minv s ->
-  exists v s', maybe_put_cell_m d s = ROk v s' /\ minv s' /\ cext s s' /\ vrep v (RDatum d) (hp s') (st s').
+  exists v s', maybe_put_cell_m d s = ROk v s' /\ minv s' /\ cext s s' /\ same_regs s s' /\ vrep v (RDatum d) (hp s') (st s').
 Proof.
   intros Hd MI. destruct (maybe_put_cell_vrep d (hp s) (st s) Hd (mi_heap _ MI)) as (v & h' & s' & E & HI & [Xh Xs] & V).
   exists v, (with_store (with_heap s h') s'). unfold maybe_put_cell_m. rewrite E.
-  split; [reflexivity|]. split; [apply minv_heap_store; assumption|]. split; [|exact V].
+  split; [reflexivity|]. split; [apply minv_heap_store; assumption|]. split; [|split; [repeat split|exact V]].
   constructor; cbn [hp st g_bind g_slots with_store with_heap]; auto.
   - intros i _. rewrite (mpc_lams _ _ _ _ _ _ E). reflexivity.
   - lia.
@@ -826,7 +835,7 @@ Qed.
 
 (* interning a symbol at compile time *)
 Lemma put_sym_m_ok x s : minv s ->
-  exists a s', put_cell_m (CSym x) s = ROk (VPtr a) s' /\ minv s' /\ cext s s' /\
+  exists a s', put_cell_m (CSym x) s = ROk (VPtr a) s' /\ minv s' /\ cext s s' /\ same_regs s s' /\
     allocated (hp s') a /\ cell_at (hp s') a = VSym x /\
     g_bind s' = g_bind s /\ g_slots s' = g_slots s.
 Proof.
@@ -835,7 +844,7 @@ Proof.
   exists a, (with_store (with_heap s h1) (st s)).
   unfold put_cell_m, put_cell. cbn [maybe_put_cell]. rewrite E. cbn [bind].
   split; [reflexivity|]. split; [apply minv_heap_store; assumption|].
-  split; [|cbn [hp st g_bind g_slots with_store with_heap]; auto].
+  split; [|split; [repeat split|cbn [hp st g_bind g_slots with_store with_heap]; auto]].
   constructor; cbn [hp st g_bind g_slots with_store with_heap]; auto using sext_refl. lia.
 Qed.
 
@@ -844,16 +853,16 @@ Proof. reflexivity. Qed.
 
 (* GlobalEnvironment::get_binding *)
 Lemma get_binding_ok a s : minv s ->
-  exists k s', get_binding a s = ROk k s' /\ minv s' /\ cext s s' /\ hp s' = hp s /\ st s' = st s /\
+  exists k s', get_binding a s = ROk k s' /\ minv s' /\ cext s s' /\ same_regs s s' /\ hp s' = hp s /\ st s' = st s /\
     assoc_find (g_bind s') a = Some k.
 Proof.
   intros MI. unfold get_binding. destruct (assoc_find (g_bind s) a) as [k|] eqn:E.
-  - exists k, s. split; [reflexivity|]. split; [exact MI|]. split; [apply cext_refl|]. auto.
+  - exists k, s. split; [reflexivity|]. split; [exact MI|]. split; [apply cext_refl|]. split; [apply same_regs_refl|]. auto.
   - exists (len (g_slots s)), (with_globals s ((a, len (g_slots s)) :: g_bind s) (g_slots s ++ [VUndef])).
     split; [reflexivity|].
     destruct MI as [HI [G1 G2] SP].
     cbn [hp st g_bind g_slots with_globals]. rewrite (assoc_find_cons a (len (g_slots s)) (g_bind s) a), N.eqb_refl.
-    split; [|split; [|auto]].
+    split; [|split; [|split; [repeat split|auto]]].
     + constructor; unfold ginv; cbn [hp st g_bind g_slots sp scap with_globals]; auto. split.
       * intros a' k'. rewrite assoc_find_cons, len_app.
         destruct (N.eqb_spec a a') as [<-|Hne]; [intros [= <-]; cbn; lia|].
@@ -972,10 +981,10 @@ Lemma cok_datum (e : expr) d :
   compile_ok e.
 Proof.
   intros Heq Hd Hinv f l tail s Hf Ht MI. destruct f as [|f]; [lia|]. rewrite Heq.
-  destruct (maybe_put_cell_m_ok d s Hd MI) as (v & s' & E & MI' & X & V).
+  destruct (maybe_put_cell_m_ok d s Hd MI) as (v & s' & E & MI' & X & R & V).
   exists (emit (emit (emit_op l OMovImmediate) v) VAcc), s', [VOp OMovImmediate; v; VAcc].
   unfold bindM. rewrite E. split; [reflexivity|]. split; [apply fwd_emit3|]. split; [repeat split|].
-  split; [exact MI'|]. split; [exact X|].
+  split; [exact MI'|]. split; [exact X|]. split; [exact R|].
   intros rho r rho' HR. destruct (Hinv _ _ _ HR) as [-> ->]. apply exec_movimm. exact V.
 Qed.
 
@@ -1002,12 +1011,12 @@ Proof. intros H. cbn [compile_expression]. rewrite H. reflexivity. Qed.
 Lemma cok_var x : wf_expr (EVar x) -> compile_ok (EVar x).
 Proof.
   intros Hx f l tail s Hf Ht MI. destruct f as [|f]; [lia|]. cbn [cell_of]. rewrite (compile_var_eq _ _ _ _ _ Hx).
-  destruct (put_sym_m_ok x s MI) as (a & s1 & E1 & MI1 & X1 & A & C & Eb & Eg).
-  destruct (get_binding_ok a s1 MI1) as (k & s2 & E2 & MI2 & X2 & Eh & Es & B).
+  destruct (put_sym_m_ok x s MI) as (a & s1 & E1 & MI1 & X1 & R1 & A & C & Eb & Eg).
+  destruct (get_binding_ok a s1 MI1) as (k & s2 & E2 & MI2 & X2 & R2 & Eh & Es & B).
   exists (emit (emit (emit_op l OMov) (VGSlot k)) VAcc), s2, [VOp OMov; VGSlot k; VAcc].
   unfold bindM at 1. rewrite E1. unfold bindM at 1. rewrite (location_operand_top l a s1 Ht).
   unfold bindM at 1. rewrite E2. split; [reflexivity|]. split; [apply fwd_emit3|]. split; [repeat split|].
-  split; [exact MI2|]. split; [eapply cext_trans; eassumption|].
+  split; [exact MI2|]. split; [eapply cext_trans; eassumption|]. split; [eapply same_regs_trans; eassumption|].
   intros rho r rho' HR. inversion HR; subst.
   apply (exec_load_global s2 _ a k x); auto; rewrite Eh; assumption.
 Qed.
@@ -1067,9 +1076,9 @@ Lemma cok_store (e0 : expr) x e :
   compile_ok e -> compile_ok e0.
 Proof.
   intros Heq Hsz Hinv IH f l tail s Hf Ht MI. destruct f as [|f]; [lia|]. rewrite Heq.
-  destruct (IH f l false s ltac:(lia) Ht MI) as (l1 & s1 & code & E1 & F1 & S1 & MI1 & X1 & EX1).
-  destruct (put_sym_m_ok x s1 MI1) as (a & s2 & E2 & MI2 & X2 & A & C & Eb & Eg).
-  destruct (get_binding_ok a s2 MI2) as (k & s3 & E3 & MI3 & X3 & Eh & Es & B).
+  destruct (IH f l false s ltac:(lia) Ht MI) as (l1 & s1 & code & E1 & F1 & S1 & MI1 & X1 & R1 & EX1).
+  destruct (put_sym_m_ok x s1 MI1) as (a & s2 & E2 & MI2 & X2 & R2 & A & C & Eb & Eg).
+  destruct (get_binding_ok a s2 MI2) as (k & s3 & E3 & MI3 & X3 & R3 & Eh & Es & B).
   assert (Ht1 : top_hdr (emit (emit_op l1 OMov) VAcc))
     by (eapply top_hdr_same; [|exact Ht]; eapply same_hdr_trans; [exact S1|repeat split]).
   eexists; exists s3, (code ++ [VOp OMov; VAcc; VGSlot k; VOp OMovImmediate; VVoid; VAcc]).
@@ -1079,6 +1088,7 @@ Proof.
   split; [eapply same_hdr_trans; [exact S1|repeat split]|]. split; [exact MI3|].
   assert (X13 : cext s1 s3) by (eapply cext_trans; eassumption).
   split; [eapply cext_trans; eassumption|].
+  split; [eapply same_regs_trans; [exact R1|]; eapply same_regs_trans; eassumption|].
   intros rho r rho' HR. destruct (Hinv _ _ _ HR) as (r1 & rho1 & HR1 & -> & ->).
   intros m lp bc X MIm Hc Hs Hip G. apply seg_app in Hs as [Hs1 Hs2].
   destruct (EX1 _ _ _ HR1 m lp bc (cext_trans _ _ _ X13 X) MIm Hc Hs1 Hip G)
@@ -1226,16 +1236,16 @@ Lemma cok_if c a b : compile_ok c -> compile_ok a -> compile_ok b -> compile_ok 
 Proof.
   intros IHc IHa IHb f l tail s Hf Ht MI. destruct f as [|f]; [lia|].
   cbn [cell_of] in *. cbn [cell_size] in Hf. rewrite compile_if3_eq.
-  destruct (IHc f l false s ltac:(lia) Ht MI) as (l1 & s1 & cc & E1 & F1 & S1 & MI1 & X1 & EX1).
+  destruct (IHc f l false s ltac:(lia) Ht MI) as (l1 & s1 & cc & E1 & F1 & S1 & MI1 & X1 & R1 & EX1).
   set (l3 := emit (emit_op l1 OJnt) (VPtr CAFEBEEF)).
   assert (S3 : same_hdr l l3) by (eapply same_hdr_trans; [exact S1|repeat split]).
-  destruct (IHa f l3 tail s1 ltac:(lia) (top_hdr_same _ _ S3 Ht) MI1) as (l4 & s2 & ca & E4 & F4 & S4 & MI2 & X2 & EX4).
+  destruct (IHa f l3 tail s1 ltac:(lia) (top_hdr_same _ _ S3 Ht) MI1) as (l4 & s2 & ca & E4 & F4 & S4 & MI2 & X2 & R2 & EX4).
   destruct (if_layout l l1 l4 cc ca F1 F4) as [L6 F7].
   set (l6 := emit (emit_op l4 OJmp) (VPtr CAFEBEEF)) in *.
   set (l7 := bc_patch l6 (bc_len (emit_op l1 OJnt)) (VPtr (bc_len l6))) in *.
   assert (S7 : same_hdr l l7).
   { eapply same_hdr_trans; [exact S3|]. eapply same_hdr_trans; [exact S4|]. repeat split. }
-  destruct (IHb f l7 tail s2 ltac:(lia) (top_hdr_same _ _ S7 Ht) MI2) as (l8 & s3 & cb & E8 & F8 & S8 & MI3 & X3 & EX8).
+  destruct (IHb f l7 tail s2 ltac:(lia) (top_hdr_same _ _ S7 Ht) MI2) as (l8 & s3 & cb & E8 & F8 & S8 & MI3 & X3 & R3 & EX8).
   set (p := len (fwd l)) in *.
   assert (L7 : len (fwd l7) = bc_len l6).
   { rewrite F7, L6. lens. fold p. lia. }
@@ -1255,6 +1265,7 @@ Proof.
   assert (X23 : cext s2 s3) by exact X3.
   assert (X13 : cext s1 s3) by (eapply cext_trans; eassumption).
   split; [eapply cext_trans; eassumption|].
+  split; [eapply same_regs_trans; [exact R1|]; eapply same_regs_trans; eassumption|].
   assert (Hexec : forall s' q code rho r rho', cext s' s3 -> exec_ok s' q code rho r rho' -> exec_ok s3 q code rho r rho').
   { intros s' q code rho r rho' Xs EX m lp bc Xm. apply EX. eapply cext_trans; eassumption. }
   intros rho r rho' HR. inversion HR; subst.
@@ -1272,10 +1283,10 @@ Lemma cok_if1 c a : compile_ok c -> compile_ok a -> compile_ok (EIf1 c a).
 Proof.
   intros IHc IHa f l tail s Hf Ht MI. destruct f as [|f]; [lia|].
   cbn [cell_of] in *. cbn [cell_size] in Hf. rewrite compile_if2_eq.
-  destruct (IHc f l false s ltac:(lia) Ht MI) as (l1 & s1 & cc & E1 & F1 & S1 & MI1 & X1 & EX1).
+  destruct (IHc f l false s ltac:(lia) Ht MI) as (l1 & s1 & cc & E1 & F1 & S1 & MI1 & X1 & R1 & EX1).
   set (l3 := emit (emit_op l1 OJnt) (VPtr CAFEBEEF)).
   assert (S3 : same_hdr l l3) by (eapply same_hdr_trans; [exact S1|repeat split]).
-  destruct (IHa f l3 tail s1 ltac:(lia) (top_hdr_same _ _ S3 Ht) MI1) as (l4 & s2 & ca & E4 & F4 & S4 & MI2 & X2 & EX4).
+  destruct (IHa f l3 tail s1 ltac:(lia) (top_hdr_same _ _ S3 Ht) MI1) as (l4 & s2 & ca & E4 & F4 & S4 & MI2 & X2 & R2 & EX4).
   destruct (if_layout l l1 l4 cc ca F1 F4) as [L6 F7].
   set (l6 := emit (emit_op l4 OJmp) (VPtr CAFEBEEF)) in *.
   set (l7 := bc_patch l6 (bc_len (emit_op l1 OJnt)) (VPtr (bc_len l6))) in *.
@@ -1300,7 +1311,7 @@ Proof.
     - rewrite bc_len_fwd, fwd_emit_op, F4. lens. rewrite L3. lens. fold p. lia. }
   split; [eapply same_hdr_trans; [exact S7|repeat split]|].
   split; [exact MI2|].
-  split; [eapply cext_trans; eassumption|].
+  split; [eapply cext_trans; eassumption|]. split; [eapply same_regs_trans; eassumption|].
   assert (Hexec : forall s' q code rho r rho', cext s' s2 -> exec_ok s' q code rho r rho' -> exec_ok s2 q code rho r rho').
   { intros s' q code rho r rho' Xs EX m lp bc Xm. apply EX. eapply cext_trans; eassumption. }
   intros rho r rho' HR. inversion HR; subst.
@@ -1340,13 +1351,13 @@ Proof. unfold list_get. replace (N.to_nat (i + 1)) with (S (N.to_nat i)) by lia.
 Lemma args_ok args : Forall compile_ok args ->
   forall f l n s, (cell_size (cells_of args) < f)%nat -> top_hdr l -> minv s ->
   exists l' s' code, args_loop (compile_expression f) (cells_of args) l n s = ROk (l', n + len args) s' /\
-    fwd l' = fwd l ++ code /\ same_hdr l l' /\ minv s' /\ cext s s' /\
+    fwd l' = fwd l ++ code /\ same_hdr l l' /\ minv s' /\ cext s s' /\ same_regs s s' /\
     exec_args s' (len (fwd l)) code args.
 Proof.
   induction 1 as [|x r Hx Hr IH]; intros f l n s Hf Ht MI.
   - exists l, s, []. cbn [cells_of map fold_right args_loop]. split; [unfold ret; f_equal; f_equal; cbn; lia|].
     split; [rewrite app_nil_r; reflexivity|]. split; [apply same_hdr_refl|]. split; [exact MI|].
-    split; [apply cext_refl|].
+    split; [apply cext_refl|]. split; [apply same_regs_refl|].
     intros rho rs rho' HR m lp bc X MIm Hc Hs Hip G. inversion HR; subst.
     exists 0%nat, m, []. split; [reflexivity|]. split; [exact MIm|].
     split; [rewrite Hip; f_equal; cbn; lia|]. split; [exact G|]. split; [apply cext_refl|].
@@ -1354,15 +1365,16 @@ Proof.
     split; [intros i v Hi; unfold list_get in Hi; destruct (N.to_nat i); discriminate|constructor].
   - destruct (cells_size x r) as [Sx Sr].
     change (cells_of (x :: r)) with (CPair (cell_of x) (cells_of r)) in *. cbn [args_loop].
-    destruct (Hx f l false s ltac:(lia) Ht MI) as (l1 & s1 & cx & E1 & F1 & S1 & MI1 & X1 & EX1).
+    destruct (Hx f l false s ltac:(lia) Ht MI) as (l1 & s1 & cx & E1 & F1 & S1 & MI1 & X1 & R1 & EX1).
     assert (S1' : same_hdr l (emit_op l1 OPushAcc)) by (eapply same_hdr_trans; [exact S1|repeat split]).
     destruct (IH f (emit_op l1 OPushAcc) (n + 1) s1 ltac:(lia) (top_hdr_same _ _ S1' Ht) MI1)
-      as (l2 & s2 & cr & E2 & F2 & S2 & MI2 & X2 & EX2).
+      as (l2 & s2 & cr & E2 & F2 & S2 & MI2 & X2 & R2 & EX2).
     exists l2, s2, (cx ++ [VOp OPushAcc] ++ cr).
     unfold bindM at 1. rewrite E1, E2.
     split; [f_equal; f_equal; rewrite len_cons; lia|].
     split; [rewrite F2, fwd_emit_op, F1, <- !app_assoc; reflexivity|].
     split; [eapply same_hdr_trans; eassumption|]. split; [exact MI2|]. split; [eapply cext_trans; eassumption|].
+    split; [eapply same_regs_trans; eassumption|].
     assert (Lp : len (fwd (emit_op l1 OPushAcc)) = len (fwd l) + len cx + 1) by (rewrite fwd_emit_op, F1; lens; lia).
     rewrite Lp in EX2.
     intros rho rs rho' HR m lp bc X MIm Hc Hs Hip G. inversion HR; subst.
@@ -1423,11 +1435,11 @@ Proof.
   apply wf_app in Hwf as (Hsp & _ & _).
   cbn [cell_of] in *. fold (cells_of args) in *. cbn [cell_size] in Hf.
   rewrite compile_application_eq by exact Hsp.
-  destruct (args_ok args IHargs f l 0 s ltac:(lia) Ht MI) as (l1 & s1 & ca & E1 & F1 & S1 & MI1 & X1 & EX1).
+  destruct (args_ok args IHargs f l 0 s ltac:(lia) Ht MI) as (l1 & s1 & ca & E1 & F1 & S1 & MI1 & X1 & R1 & EX1).
   rewrite N.add_0_l in E1.
   set (l2 := emit (emit_op l1 OPushImmediate) (VArgc (len args))).
   assert (S2 : same_hdr l l2) by (eapply same_hdr_trans; [exact S1|repeat split]).
-  destruct (IHf f l2 false s1 ltac:(lia) (top_hdr_same _ _ S2 Ht) MI1) as (l3 & s2 & cf & E3 & F3 & S3 & MI2 & X2 & EX3).
+  destruct (IHf f l2 false s1 ltac:(lia) (top_hdr_same _ _ S2 Ht) MI1) as (l3 & s2 & cf & E3 & F3 & S3 & MI2 & X2 & R2 & EX3).
   set (callop := VOp (if tail then OTCallAcc else OCallAcc)).
   exists (emit_op l3 (if tail then OTCallAcc else OCallAcc)), s2,
          (ca ++ [VOp OPushImmediate; VArgc (len args)] ++ cf ++ [callop]).
@@ -1435,7 +1447,7 @@ Proof.
   split; [reflexivity|].
   split; [rewrite fwd_emit_op, F3; unfold l2; rewrite fwd_emit, fwd_emit_op, F1, <- !app_assoc; reflexivity|].
   split; [eapply same_hdr_trans; [exact S2|]; eapply same_hdr_trans; [exact S3|repeat split]|].
-  split; [exact MI2|]. split; [eapply cext_trans; eassumption|].
+  split; [exact MI2|]. split; [eapply cext_trans; eassumption|]. split; [eapply same_regs_trans; eassumption|].
   set (p := len (fwd l)) in *.
   assert (L2 : len (fwd l2) = p + len ca + 2) by (unfold l2; rewrite fwd_emit, fwd_emit_op, F1; lens; fold p; lia).
   rewrite L2 in EX3.
